@@ -131,13 +131,28 @@ func goldenCheck(dir string) *Outcome {
 			}); err != nil {
 				fail("%s (%s): write transaction on a golden file: %v", g.File, g.What, err)
 			}
+			var afterHash uint64
 			_ = db.View(func(tx *bolt.Tx) error {
 				for cerr := range tx.Check() {
 					fail("%s (%s): Tx.Check after a write: %v", g.File, g.What, cerr)
 					break
 				}
+				afterHash = e.Dump(tx).Hash()
 				return nil
 			})
+			// what this build wrote into the old file must again be the published format
+			if d2, rerr := os.ReadFile(path); rerr == nil {
+				if im2, lerr := dec.Load(d2); lerr != nil {
+					fail("%s (%s): after a write transaction the decoder cannot read the file: %v", g.File, g.What, lerr)
+				} else if wi2, ok := im2.Winner(); ok {
+					r2 := im2.Decode(wi2)
+					if r2.Fatal != "" || !r2.Clean() {
+						fail("%s (%s): after a write transaction: %s", g.File, g.What, r2.ProblemString())
+					} else if r2.Root.Hash() != afterHash {
+						fail("%s (%s): after a write transaction the decoder and the API disagree on the content", g.File, g.What)
+					}
+				}
+			}
 		}()
 		os.Remove(path)
 		out.probe("golden-files-verified", 1)
